@@ -252,6 +252,10 @@ theorem c17_subst_seq (σ : List (String × Ty)) (o : String) (a : Ty) :
     substTy σ (.seq o (some a)) = .seq o (some (substTy σ a)) := by simp only [substTy]
 theorem c17_subst_seq_none (σ : List (String × Ty)) (o : String) :
     substTy σ (.seq o none) = .seq o none := by simp only [substTy]
+theorem c17_subst_vol (σ : List (String × Ty)) (a : Ty) :
+    substTy σ (.valueOrList (some a)) = .valueOrList (some (substTy σ a)) := by simp only [substTy]
+theorem c17_subst_vol_none (σ : List (String × Ty)) :
+    substTy σ (.valueOrList none) = .valueOrList none := by simp only [substTy]
 theorem c17_subst_tupleFixed (σ : List (String × Ty)) (ts : List Ty) :
     substTy σ (.tupleFixed ts) = .tupleFixed (substTys σ ts) := by simp only [substTy]
 theorem c17_subst_mapping (σ : List (String × Ty)) (o : String) (ts : List Ty) :
@@ -303,6 +307,7 @@ mutual
 /-- "typing-normal form": every union has at least two members, none of them a union, pairwise distinct -/
 def c17_normalTy : Ty → Bool
   | .seq _ (some a) => c17_normalTy a
+  | .valueOrList (some a) => c17_normalTy a
   | .tupleFixed ts => c17_normalTys ts
   | .mapping _ as => c17_normalTys as
   | .union ts => c17_normalTys ts && decide (2 ≤ ts.length) && ts.all (fun t => !c17_isUnion t) && c17_distinct ts
@@ -321,6 +326,7 @@ mutual
 def c17_fresh (σ : List (String × Ty)) : Ty → Bool
   | .typeVar n _ _ => (σ.lookup n).isNone
   | .seq _ (some a) => c17_fresh σ a
+  | .valueOrList (some a) => c17_fresh σ a
   | .tupleFixed ts => c17_freshs σ ts
   | .mapping _ as => c17_freshs σ as
   | .union ts => c17_freshs σ ts
@@ -339,6 +345,7 @@ mutual
 def c17_noVars : Ty → Bool
   | .typeVar _ _ _ => false
   | .seq _ (some a) => c17_noVars a
+  | .valueOrList (some a) => c17_noVars a
   | .tupleFixed ts => c17_noVarss ts
   | .mapping _ as => c17_noVarss as
   | .union ts => c17_noVarss ts
@@ -356,6 +363,7 @@ mutual
 def c17_unionFree : Ty → Bool
   | .union _ => false
   | .seq _ (some a) => c17_unionFree a
+  | .valueOrList (some a) => c17_unionFree a
   | .tupleFixed ts => c17_unionFrees ts
   | .mapping _ as => c17_unionFrees as
   | .annotated t _ => c17_unionFree t
@@ -401,6 +409,10 @@ theorem c17_subst_fresh (σ : List (String × Ty)) : ∀ t : Ty, c17_normalTy t 
     simp only [c17_normalTy] at hn; simp only [c17_fresh] at hf
     rw [c17_subst_seq, c17_subst_fresh σ a hn hf]
   | .seq o none, _, _ => by simp only [substTy]
+  | .valueOrList (some a), hn, hf => by
+    simp only [c17_normalTy] at hn; simp only [c17_fresh] at hf
+    rw [c17_subst_vol, c17_subst_fresh σ a hn hf]
+  | .valueOrList none, _, _ => by simp only [substTy]
   | .tupleFixed ts, hn, hf => by
     simp only [c17_normalTy] at hn; simp only [c17_fresh] at hf
     rw [c17_subst_tupleFixed, c17_substs_fresh σ ts hn hf]
@@ -446,6 +458,8 @@ theorem c17_fresh_nil : ∀ t : Ty, c17_fresh [] t = true
   | .typeVar _ _ _ => by simp only [c17_fresh, List.lookup_nil, Option.isNone_none]
   | .seq _ (some a) => by simp only [c17_fresh, c17_fresh_nil a]
   | .seq _ none => by simp only [c17_fresh]
+  | .valueOrList (some a) => by simp only [c17_fresh, c17_fresh_nil a]
+  | .valueOrList none => by simp only [c17_fresh]
   | .tupleFixed ts => by simp only [c17_fresh, c17_freshs_nil ts]
   | .mapping _ ts => by simp only [c17_fresh, c17_freshs_nil ts]
   | .union ts => by simp only [c17_fresh, c17_freshs_nil ts]
@@ -472,6 +486,8 @@ theorem c17_fresh_of_noVars (σ : List (String × Ty)) : ∀ t : Ty, c17_noVars 
   | .typeVar _ _ _, h => by simp only [c17_noVars] at h; cases h
   | .seq _ (some a), h => by simp only [c17_noVars] at h; simp only [c17_fresh, c17_fresh_of_noVars σ a h]
   | .seq _ none, _ => by simp only [c17_fresh]
+  | .valueOrList (some a), h => by simp only [c17_noVars] at h; simp only [c17_fresh, c17_fresh_of_noVars σ a h]
+  | .valueOrList none, _ => by simp only [c17_fresh]
   | .tupleFixed ts, h => by simp only [c17_noVars] at h; simp only [c17_fresh, c17_freshs_of_noVars σ ts h]
   | .mapping _ ts, h => by simp only [c17_noVars] at h; simp only [c17_fresh, c17_freshs_of_noVars σ ts h]
   | .union ts, h => by simp only [c17_noVars] at h; simp only [c17_fresh, c17_freshs_of_noVars σ ts h]
@@ -503,6 +519,8 @@ theorem c17_normal_of_unionFree : ∀ t : Ty, c17_unionFree t = true → c17_nor
   | .typeVar _ _ _, _ => by simp only [c17_normalTy]
   | .seq _ (some a), h => by simp only [c17_unionFree] at h; simp only [c17_normalTy, c17_normal_of_unionFree a h]
   | .seq _ none, _ => by simp only [c17_normalTy]
+  | .valueOrList (some a), h => by simp only [c17_unionFree] at h; simp only [c17_normalTy, c17_normal_of_unionFree a h]
+  | .valueOrList none, _ => by simp only [c17_normalTy]
   | .tupleFixed ts, h => by simp only [c17_unionFree] at h; simp only [c17_normalTy, c17_normals_of_unionFree ts h]
   | .mapping _ ts, h => by simp only [c17_unionFree] at h; simp only [c17_normalTy, c17_normals_of_unionFree ts h]
   | .annotated t _, h => by simp only [c17_unionFree] at h; simp only [c17_normalTy, c17_normal_of_unionFree t h]
@@ -556,6 +574,10 @@ theorem c17_subst_comp (σ₁ σ₂ : List (String × Ty)) : ∀ t : Ty, c17_uni
     simp only [c17_unionFree] at h
     rw [c17_subst_seq, c17_subst_seq, c17_subst_seq, c17_subst_comp σ₁ σ₂ a h]
   | .seq _ none, _ => by simp only [substTy]
+  | .valueOrList (some a), h => by
+    simp only [c17_unionFree] at h
+    rw [c17_subst_vol, c17_subst_vol, c17_subst_vol, c17_subst_comp σ₁ σ₂ a h]
+  | .valueOrList none, _ => by simp only [substTy]
   | .tupleFixed ts, h => by
     simp only [c17_unionFree] at h
     rw [c17_subst_tupleFixed, c17_subst_tupleFixed, c17_subst_tupleFixed, c17_substs_comp σ₁ σ₂ ts h]
